@@ -6,11 +6,23 @@
 //!  1. the JPEG file itself, written by a small textbook JPEG entropy coder that shares no code
 //!     with jxl-oxide (this is the "original" the reconstruction has to reproduce), and
 //!  2. a JPEG XL container that carries the same coefficients losslessly (VarDCT frame, DCT8
-//!     blocks only, YCbCr 4:4:4, prefix-coded with one flat code) together with a `jbrd`
-//!     reconstruction box, the way a lossless JPEG transcode does.
+//!     blocks only, YCbCr with the JPEG's chroma subsampling, prefix-coded with one flat code)
+//!     together with a `jbrd` reconstruction box, the way a lossless JPEG transcode does.
 //!
-//! Only what the demonstrations need is supported: 3 components, 4:4:4, 8-bit tables, sequential
-//! (baseline) scans, image sides that are multiples of 8 and at most 2048.
+//! Supported: 3 components (YCbCr) with sampling factors 1 or 2 per component and direction
+//! (4:4:4, 4:2:0, 4:2:2, 4:4:0 and the unusual mixes), or 1 component (grey); 8-bit tables;
+//! baseline and progressive scans; any image size up to 2048 (also not a multiple of the MCU).
+//!
+//! Geometry (ITU-T T.81 A.1.1, A.2): with `Hmax`/`Vmax` the largest factors of the frame, component
+//! `c` is `ceil(X * Hc / Hmax)` samples wide. An interleaved scan (two or more components) is made
+//! of `ceil(X / (8 Hmax)) * ceil(Y / (8 Vmax))` MCUs of `Hc x Vc` blocks of each of its components;
+//! the blocks beyond the component's own size are padding the encoder made up, and they are in the
+//! file. A scan of one component is never interleaved: it walks the component's own
+//! `ceil(width_c / 8) x ceil(height_c / 8)` blocks, one per MCU, and leaves the padding out.
+//! A lossless transcode has to keep the padding blocks, so the JPEG XL frame codes whole MCUs: the
+//! decoder (and libjxl) round the block grid of a subsampled frame up to even and give channel `c`
+//! that grid shifted by `Hmax / Hc`, `Vmax / Vc` - exactly `mcus * Hc` by `mcus * Vc` blocks, the
+//! padded JPEG grid. `JpegSpec::blocks[c]` is this padded grid.
 #![allow(dead_code)]
 
 // ---------------------------------------------------------------------------------------------
@@ -140,8 +152,13 @@ pub struct JpegSpec {
     pub height: usize,
     /// Quantisation tables in zigzag order; table `i` belongs to component `i`.
     pub quant: [[u16; 64]; 3],
-    /// Quantised coefficients: per component, 8x8 blocks in raster order, zigzag order inside.
+    /// Quantised coefficients: per component, 8x8 blocks in raster order of the component's grid
+    /// padded to whole MCUs (`grid(c)`), zigzag order inside.
     pub blocks: [Vec<[i16; 64]>; 3],
+    /// Sampling factors `(H, V)` per component, each 1 or 2.
+    pub sampling: [(usize, usize); 3],
+    /// One component only (`blocks[1]`, `blocks[2]`, their tables and factors are not used).
+    pub gray: bool,
     /// Sequential scans, each a list of component indices.
     pub scans: Vec<Vec<usize>>,
     /// Per scan: `(block index within the scan, number of ZRL symbols written before EOB)`.
@@ -179,12 +196,70 @@ pub struct JpegOut {
     pub reset_points: Vec<Vec<u32>>,
 }
 
+pub const S444: [(usize, usize); 3] = [(1, 1); 3];
+
 impl JpegSpec {
-    pub fn blocks_w(&self) -> usize {
-        self.width / 8
+    pub fn ncomp(&self) -> usize {
+        if self.gray { 1 } else { 3 }
     }
-    pub fn blocks_h(&self) -> usize {
-        self.height / 8
+    /// `(Hmax, Vmax)` of the frame.
+    pub fn max_sampling(&self) -> (usize, usize) {
+        let s = &self.sampling[..self.ncomp()];
+        (s.iter().map(|p| p.0).max().unwrap(), s.iter().map(|p| p.1).max().unwrap())
+    }
+    /// MCUs of an interleaved scan per row and per column.
+    pub fn mcus(&self) -> (usize, usize) {
+        let (hm, vm) = self.max_sampling();
+        (self.width.div_ceil(8 * hm), self.height.div_ceil(8 * vm))
+    }
+    /// Block grid of component `c` padded to whole MCUs: what `blocks[c]` holds.
+    pub fn grid(&self, c: usize) -> (usize, usize) {
+        let (mx, my) = self.mcus();
+        (mx * self.sampling[c].0, my * self.sampling[c].1)
+    }
+    /// Block grid of component `c` without MCU padding: what a scan of this component alone codes.
+    pub fn own_grid(&self, c: usize) -> (usize, usize) {
+        let (hm, vm) = self.max_sampling();
+        let (h, v) = self.sampling[c];
+        ((self.width * h).div_ceil(hm).div_ceil(8), (self.height * v).div_ceil(vm).div_ceil(8))
+    }
+    /// Number of blocks `blocks[c]` has to hold.
+    pub fn nblocks(&self, c: usize) -> usize {
+        let (w, h) = self.grid(c);
+        w * h
+    }
+    /// The blocks of a scan in coding order as `(component, index into blocks[component])`, and
+    /// the number of blocks per MCU.
+    pub fn scan_order(&self, comps: &[usize]) -> (Vec<(usize, usize)>, usize) {
+        let mut out = Vec::new();
+        if comps.len() == 1 {
+            // not interleaved: the component's own grid, one block per MCU
+            let c = comps[0];
+            let (gw, _) = self.grid(c);
+            let (ow, oh) = self.own_grid(c);
+            for by in 0..oh {
+                for bx in 0..ow {
+                    out.push((c, by * gw + bx));
+                }
+            }
+            return (out, 1);
+        }
+        let (mx, my) = self.mcus();
+        for y in 0..my {
+            for x in 0..mx {
+                for &c in comps {
+                    let (h, v) = self.sampling[c];
+                    let (gw, _) = self.grid(c);
+                    for dy in 0..v {
+                        for dx in 0..h {
+                            out.push((c, (y * v + dy) * gw + x * h + dx));
+                        }
+                    }
+                }
+            }
+        }
+        let per_mcu = comps.iter().map(|&c| self.sampling[c].0 * self.sampling[c].1).sum();
+        (out, per_mcu)
     }
     pub fn scan_param(&self, scan: usize) -> (u8, u8, u8, u8) {
         self.scan_params.get(scan).copied().unwrap_or((0, 63, 0, 0))
@@ -380,10 +455,16 @@ pub fn write_jpeg_ex(spec: &JpegSpec) -> JpegOut {
         out.extend_from_slice(com);
     }
 
-    // DQT, three 8-bit tables in one segment
+    // DQT, one 8-bit table per component in one segment
+    let ncomp = spec.ncomp();
+    for c in 0..ncomp {
+        let (h, v) = spec.sampling[c];
+        assert!((1..=2).contains(&h) && (1..=2).contains(&v));
+        assert_eq!(spec.blocks[c].len(), spec.nblocks(c), "blocks[{c}] is not the padded grid");
+    }
     out.extend_from_slice(&[0xff, 0xdb]);
-    out.extend_from_slice(&((2 + 3 * 65) as u16).to_be_bytes());
-    for (i, q) in spec.quant.iter().enumerate() {
+    out.extend_from_slice(&((2 + ncomp * 65) as u16).to_be_bytes());
+    for (i, q) in spec.quant.iter().enumerate().take(ncomp) {
         out.push(i as u8);
         for &v in q {
             assert!(v >= 1 && v <= 255);
@@ -393,13 +474,14 @@ pub fn write_jpeg_ex(spec: &JpegSpec) -> JpegOut {
 
     // SOF0 / SOF2
     out.extend_from_slice(&[0xff, if spec.progressive { 0xc2 } else { 0xc0 }]);
-    out.extend_from_slice(&((8 + 3 * 3) as u16).to_be_bytes());
+    out.extend_from_slice(&((8 + 3 * ncomp) as u16).to_be_bytes());
     out.push(8);
     out.extend_from_slice(&(spec.height as u16).to_be_bytes());
     out.extend_from_slice(&(spec.width as u16).to_be_bytes());
-    out.push(3);
-    for i in 0..3u8 {
-        out.extend_from_slice(&[i + 1, 0x11, i]);
+    out.push(ncomp as u8);
+    for i in 0..ncomp {
+        let (h, v) = spec.sampling[i];
+        out.extend_from_slice(&[i as u8 + 1, ((h << 4) | v) as u8, i as u8]);
     }
 
     // DHT: four tables in one segment, or one segment each
@@ -428,9 +510,13 @@ pub fn write_jpeg_ex(spec: &JpegSpec) -> JpegOut {
     let mut pad_iter = spec.padding.as_ref().map(|p| p.iter().copied());
     let mut pad_needs = Vec::new();
     let mut reset_points = Vec::new();
-    let nblocks = spec.blocks_w() * spec.blocks_h();
 
     for (scan_idx, comps) in spec.scans.iter().enumerate() {
+        assert!(!comps.is_empty() && comps.iter().all(|&c| c < ncomp));
+        // interleaved: `Hc x Vc` blocks of each component per MCU (at most 10, T.81 B.2.3)
+        let (order, per_mcu) = spec.scan_order(comps);
+        assert!(per_mcu <= 10, "more than 10 blocks in an MCU");
+        let nmcus = order.len() / per_mcu;
         let (ss, se, ah, al) = spec.scan_param(scan_idx);
         if spec.progressive {
             assert!(ss <= se && se <= 63);
@@ -462,8 +548,7 @@ pub fn write_jpeg_ex(spec: &JpegSpec) -> JpegOut {
         let mut pred = [0i32; 3];
         let mut block_idx = 0u32;
         let mut rst = 0u8;
-        // 4:4:4: an MCU is one block of every component of the scan
-        for b in 0..nblocks {
+        for b in 0..nmcus {
             if spec.restart_interval != 0 && b != 0 && b % spec.restart_interval as usize == 0 {
                 st.emit_eobrun();
                 let need = (8 - st.bw.n) % 8;
@@ -481,11 +566,11 @@ pub fn write_jpeg_ex(spec: &JpegSpec) -> JpegOut {
                 rst = (rst + 1) % 8;
                 pred = [0; 3];
             }
-            for &c in comps {
+            for &(c, bi) in &order[b * per_mcu..(b + 1) * per_mcu] {
                 let tbl = if c == 0 { 0 } else { 1 };
                 let dc_codes = &codes[tbl];
                 st.ac_codes = &codes[2 + tbl];
-                let block = &spec.blocks[c][b];
+                let block = &spec.blocks[c][bi];
                 let zr = ezr.iter().find(|&&(idx, _)| idx == block_idx).map(|&(_, n)| n);
                 if forced.contains(&block_idx) {
                     // an encoder that ends its run here for reasons of its own
@@ -776,16 +861,50 @@ fn modular_header_global_tree(w: &mut BitW) {
 }
 
 /// Builds the JPEG XL codestream (image header + one VarDCT frame).
+///
+/// Subsampled frames: `jpeg_upsampling` holds, per channel in the order Cb, Y, Cr, the *sampling
+/// factors* of the channel as a mode (0: 1x1, 1: 2x2, 2: 2x1, 3: 1x2 as HxV); a channel is
+/// shifted in a direction when some channel has factor 2 there and it has factor 1. The frame has
+/// the true image size; the block grid is `ceil(size / 8)` rounded up to even in a subsampled
+/// direction (`HfMetadata::parse`, `ChannelShift::shift_size`), i.e. whole MCUs, and channel `c`
+/// has that grid shifted: `JpegSpec::grid(c)`.
 pub fn write_codestream(spec: &JpegSpec) -> Vec<u8> {
     let (w, h) = (spec.width, spec.height);
-    assert!(w % 8 == 0 && h % 8 == 0 && w <= 2048 && h <= 2048 && w > 0 && h > 0);
-    let (bw, bh) = (w / 8, h / 8);
+    assert!(w <= 2048 && h <= 2048 && w > 0 && h > 0);
+    let ncomp = spec.ncomp();
+    // a grey JPEG travels as a 4:4:4 YCbCr frame with empty chroma channels
+    let sampling = if spec.gray { S444 } else { spec.sampling };
+    let (hm, vm) = spec.max_sampling();
+    let (mx, my) = spec.mcus();
+    // full-resolution block grid as the decoder sizes it
+    let (bw, bh) = (mx * hm, my * vm);
+    {
+        let (mut dbw, mut dbh) = (w.div_ceil(8), h.div_ceil(8));
+        if hm == 2 {
+            dbw = dbw.div_ceil(2) * 2;
+        }
+        if vm == 2 {
+            dbh = dbh.div_ceil(2) * 2;
+        }
+        assert_eq!((bw, bh), (dbw, dbh));
+    }
+    // channel shifts and grids
+    let shift: Vec<(usize, usize)> = (0..3).map(|c| ((hm / sampling[c].0).trailing_zeros() as usize, (vm / sampling[c].1).trailing_zeros() as usize)).collect();
+    let cgrid: Vec<(usize, usize)> = (0..3).map(|c| (bw >> shift[c].0, bh >> shift[c].1)).collect();
+    let zero_block = [0i16; 64];
+    let block_at = |c: usize, x: usize, y: usize| -> &[i16; 64] {
+        if c < ncomp { &spec.blocks[c][y * cgrid[c].0 + x] } else { &zero_block }
+    };
+    for c in 0..ncomp {
+        assert_eq!(cgrid[c], spec.grid(c));
+        assert_eq!(spec.blocks[c].len(), cgrid[c].0 * cgrid[c].1);
+    }
     let zz = zigzag();
 
     let mut cs = BitW::default();
     cs.put(0x0aff, 16);
     // SizeHeader
-    if w <= 256 && h <= 256 {
+    if w % 8 == 0 && h % 8 == 0 && w <= 256 && h <= 256 {
         cs.put(1, 1);
         cs.put((h / 8 - 1) as u64, 5);
         cs.put(0, 3);
@@ -816,7 +935,17 @@ pub fn write_codestream(spec: &JpegSpec) -> Vec<u8> {
     cs.put(0, 1); // VarDCT
     cs.u64v(0x80); // flags: skip adaptive LF smoothing
     cs.put(1, 1); // do_ycbcr
-    cs.put(0, 6); // jpeg_upsampling: 4:4:4
+    for c in [1usize, 0, 2] {
+        // jpeg_upsampling, channel order Cb, Y, Cr
+        let mode = match sampling[c] {
+            (1, 1) => 0,
+            (2, 2) => 1,
+            (2, 1) => 2,
+            (1, 2) => 3,
+            _ => panic!("sampling factor"),
+        };
+        cs.put(mode, 2);
+    }
     cs.put(0, 2); // upsampling 1
     cs.put(0, 2); // one pass
     cs.put(0, 1); // no crop
@@ -854,8 +983,11 @@ pub fn write_codestream(spec: &JpegSpec) -> Vec<u8> {
     lfgrp.put(0, 2); // extra_precision
     modular_header_global_tree(&mut lfgrp);
     for c in 0..3 {
-        for b in 0..bw * bh {
-            tok(&mut lfgrp, pack_signed(spec.blocks[c][b][0] as i32));
+        // LF channels Y, Cb, Cr, each with its own (shifted) grid
+        for y in 0..cgrid[c].1 {
+            for x in 0..cgrid[c].0 {
+                tok(&mut lfgrp, pack_signed(block_at(c, x, y)[0] as i32));
+            }
         }
     }
     let nb_blocks = bw * bh;
@@ -880,6 +1012,7 @@ pub fn write_codestream(spec: &JpegSpec) -> Vec<u8> {
     modular_header_global_tree(&mut hfg);
     for c in [1usize, 0, 2] {
         // JPEG XL channel order is Cb, Y, Cr
+        let c = if c < ncomp { c } else { 0 };
         for y in 0..8 {
             for x in 0..8 {
                 // pixel (x, y) holds the quantiser of JPEG position (row = x, col = y)
@@ -912,7 +1045,12 @@ pub fn write_codestream(spec: &JpegSpec) -> Vec<u8> {
             for by in y0..(y0 + 32).min(bh) {
                 for bx in x0..(x0 + 32).min(bw) {
                     for c in 0..3 {
-                        let block = &spec.blocks[c][by * bw + bx];
+                        // Y, Cb, Cr; a shifted channel has a block where the position is aligned
+                        let (hs, vs) = shift[c];
+                        if (bx >> hs) << hs != bx || (by >> vs) << vs != by {
+                            continue;
+                        }
+                        let block = block_at(c, bx >> hs, by >> vs);
                         let stream: Vec<i16> = (0..64).map(|k| block[tr[k]]).collect();
                         let mut nz = stream[1..].iter().filter(|&&v| v != 0).count();
                         tok(&mut pg, nz as u32);
@@ -1104,15 +1242,16 @@ impl JbrdFields {
                 }
             })
             .collect();
+        // the sampling factors are not in the box: the decoder takes them from the frame header
         Self {
-            is_gray: false,
+            is_gray: spec.gray,
             markers,
             app,
             com_lengths,
-            quant: vec![(0, 0, false), (0, 1, false), (0, 2, true)],
-            comp_type: 1,
-            comp_ids: vec![1, 2, 3],
-            comp_q: vec![0, 1, 2],
+            quant: if spec.gray { vec![(0, 0, true)] } else { vec![(0, 0, false), (0, 1, false), (0, 2, true)] },
+            comp_type: if spec.gray { 0 } else { 1 },
+            comp_ids: if spec.gray { vec![1] } else { vec![1, 2, 3] },
+            comp_q: if spec.gray { vec![0] } else { vec![0, 1, 2] },
             huff,
             scans,
             restart_interval: spec.restart_interval,
